@@ -27,6 +27,7 @@ def gen_widgets(rng: random.Random, term: str):
     for _ in range(n):
         style = rng.choice({"konsole": ["kitty", "kitty", "iterm2", "iterm2", "block"],
                             "kitty": ["kitty", "kitty", "kitty", "block"],
+                            "forced": ["kitty", "kitty", "kitty", "block"],
                             "other": ["block", "block", "iterm2"]}[term])
         ws.append({
             "style": style,
@@ -125,7 +126,11 @@ def mutate(rng, layout, nw, W, H):
         cols = [list(c) for c in layout[1]]
         fixed = [i for i, c in enumerate(cols) if c[0] is not None]
         a = rng.random()
-        if a < 0.7 and len(fixed) > 1:  # swap two columns: a purely horizontal move of whatever they hold
+        plain = [i for i, c in enumerate(cols) if c[1][0] == "fill"]
+        if a < 0.2 and plain:  # a neighbour's cells change: rows holding image lines are re-sent, nothing moves
+            i = rng.choice(plain)
+            cols[i] = [cols[i][0], ["fill", rng.choice([ch for ch in "cdefg" if ch != cols[i][1][1]])]]
+        elif a < 0.7 and len(fixed) > 1:  # swap two columns: a purely horizontal move of whatever they hold
             i, j = rng.sample(fixed, 2)
             cols[i], cols[j] = cols[j], cols[i]
         elif fixed:  # change a caption's height (a vertical move below it)
@@ -174,12 +179,24 @@ def mutate(rng, layout, nw, W, H):
 
 
 def gen_script(rng: random.Random, tier: str = "quick"):
-    term = rng.choice(["kitty", "kitty", "konsole", "konsole", "other"])
+    term = rng.choice(["kitty", "kitty", "konsole", "konsole", "other", "forced"])
+    # "forced": a terminal that is neither kitty nor konsole but speaks the kitty protocol
+    # (`KittyImage.forced_support = True`; `is_supported()` itself is False there)
+    forced = term == "forced"
+    name = rng.choice(["wezterm", "iterm2", "other"]) if forced else term
     W, H = rng.choice([(30, 12), (20, 8), (rng.randrange(6, 41), rng.randrange(3, 17))])
     ws = gen_widgets(rng, term)
     nw = len(ws)
-    sc = {"term": term, "W": W, "H": H, "widgets": ws, "cell": rng.choice([[4, 8], [4, 8], [5, 10], [8, 16]]),
-          "kitty_supported": term != "other", "iterm2_supported": term != "kitty", "steps": []}
+    sc = {"term": name, "forced": forced, "W": W, "H": H, "widgets": ws, "cell": rng.choice([[4, 8], [4, 8], [5, 10], [8, 16]]),
+          "kitty_supported": term in ("kitty", "konsole"), "iterm2_supported": term in ("konsole", "other"),
+          "steps": []}
+    if term in ("kitty", "konsole") and rng.random() < 0.12:
+        # a fresh process: support not probed yet, no image widget yet, an earlier program's images still on
+        # the terminal; the screen is started / cleared first
+        sc["fresh_support"] = True
+        sc["leftover"] = [[1, rng.randrange(H), rng.randrange(W // 2), rng.randrange(1, W // 2 + 1), 1,
+                           rng.choice([0, 1, -1, 5, rng.randrange(-99, 99)])] for _ in range(rng.randrange(1, 5))]
+        sc["steps"] += [{"op": o} for o in rng.choice([["start"], ["clear"], ["stop", "start"], ["clear", "stop", "start"]])]
     layout = (gen_caption_columns(rng, nw, W, H) if term != "other" and rng.random() < 0.25
               else gen_box(rng, nw, W, H))
     n = rng.randrange(5 if layout[0] == "fcols" else 2, 9 if tier == "quick" else 14)
